@@ -102,7 +102,8 @@ def main(ctx):
     for k in range(n):
         rng = ctx.rng
         d = gen.rand_design(rng, profile='small' if k % 3 else 'med', nops=rng.randint(3, 12), max_total=40,
-                            wide_mem=False, raw=False, ops=gen.OPS_ALL + ['constop', 'constop', 'const', 'constreg'])
+                            wide_mem=False, raw=False, twins=True,
+                            ops=gen.OPS_ALL + ['constop', 'constop', 'const', 'constreg'])
         steps = gen.rand_stimulus(rng, d, rng.choice([3, 5]))
         steps_alt = gen.rand_stimulus(rng, d, len(steps))
         _, memmap, _ = gen.rand_init(rng, d, with_default=False)
